@@ -373,7 +373,7 @@ func runC14(c *fw.Ctx) {
 	o := gen.DefaultOpts()
 	o.PlainKeys = true
 	o.MaxStr = 3
-	for i := 0; i < c.PerShard(c.Pick(60000, 3000000)); i++ {
+	for i := 0; i < c.PerShard(c.Pick(600000, 15000000)); i++ {
 		o.MaxDepth = 1 + r.Intn(5)
 		a := gen.Value(r, o, 0)
 		mk := c14Mutations[r.Intn(len(c14Mutations))]
@@ -414,7 +414,7 @@ func runC14(c *fw.Ctx) {
 	// (3) equal values built along different construction paths
 	r2 := c.Rand("paths")
 	o.Symbols = true
-	for i := 0; i < c.PerShard(c.Pick(15000, 500000)); i++ {
+	for i := 0; i < c.PerShard(c.Pick(100000, 3000000)); i++ {
 		o.MaxDepth = 1 + r2.Intn(4)
 		v := gen.Value(r2, o, 0)
 		if v.K != canon.List && v.K != canon.Vec && v.K != canon.Map && v.K != canon.Set {
